@@ -146,6 +146,20 @@ class VPtr(V):
         return "VPtr(%r,%s)" % (self.base, self.off)
 
 
+class VListView(V):
+    """a list stored *by value* inside a symbolic table (dict k -> sequence of record addresses): reads and in-place
+    updates go through the table entry, so `for x in d[k]` sees mutations made during the iteration (live list)"""
+    kind = "listview"
+
+    def __init__(self, dict_ref, key, elem):
+        self.dict_ref = dict_ref    # VRef of the dict object
+        self.key = key              # z3 term
+        self.elem = elem            # element type ("sym:Shape", "int", ...)
+
+    def __repr__(self):
+        return "VListView(%r,%s)" % (self.dict_ref, self.key)
+
+
 class VFunc(V):
     kind = "func"
 
@@ -283,6 +297,8 @@ def same_atom(a, b):
         return same_atom(a.base, b.base) and a.off.eq(b.off)
     if isinstance(a, VABytes):
         return a.arr.eq(b.arr) and a.n.eq(b.n)
+    if isinstance(a, VListView):
+        return a.dict_ref.oid == b.dict_ref.oid and a.key.eq(b.key)
     return False
 
 
@@ -343,6 +359,8 @@ def _fusable(a, b):
         return same_atom(a.base, b.base)
     if isinstance(a, VABytes):
         return True
+    if isinstance(a, VOpaque):
+        return True         # two unknown values: still an unknown value
     return same_atom(a, b)
 
 
@@ -358,6 +376,10 @@ def _fuse(grp):
         if isinstance(rep, VSym):
             return VSym(rep.shape, t)
         return type(rep)(t)
+    if isinstance(rep, VOpaque):
+        if all(a.tag == rep.tag for _, a in grp):
+            return rep
+        return VOpaque(fresh_name("opq_merged"))
     if isinstance(rep, VABytes):
         arr, n = grp[-1][1].arr, grp[-1][1].n
         for g, a in reversed(grp[:-1]):
